@@ -6,6 +6,12 @@ props = [json.loads(l) for l in open(os.path.join(V, 'properties.jsonl'))]
 
 # id -> (level category, technique, level text, level note, design ref)
 CLAIMED = {
+ 'C16': ('exploration', 'table-driven property-based testing of option layering through clap + serde + build_config; generated builder / command-line configurations run over the simulated socket',
+         'Each of 45 options, 34 theme colours and 38 key bindings is independently absent / in the file / on the CLI / in both, all at once, and the effective value is compared with a table written from the sample configuration file and CLI reference (derived values and six documented cross-option rejections modelled). Every configuration Builder::build or the CLI layer accepts (boundary values of every parameter) is run for 3 simulated rounds: error values are fine, panics and hangs are violations.',
+         'start_tracer\'s builder chain is mirrored; Privilege::new(true, false) stands for a privileged process on a platform that also allows unprivileged mode.', 'DESIGN.md 3/C16'),
+ 'C20': ('exploration', 'randomized schedule exploration with real threads and add-only yield points; digest-membership oracle over all folds of whole rounds',
+         'The real tracer runs on its own thread over the simulated socket while 1..4 readers loop snapshot()/clear(); yield points inside State::update_from_round stall the writer mid-round. Every snapshot digest must equal the fold of a whole number of consecutive published rounds over an empty state, within the window implied by the publish counter read before/after the snapshot and by the clears issued.',
+         'schedules are sampled, not enumerated; races needing a window outside the yield points can be missed; failing schedules are not replayed deterministically.', 'DESIGN.md 3/C20'),
  'C05': ('exploration', 'model-based property-based testing: real State vs a recomputation from the whole round history',
          'Synthetic histories (up to 3000 rounds; complete / awaited / failed / skipped probes, RTT 0..3 s incl. clock steps, first-ttl 1..254, sample limits 0..256) and rounds published by the real strategy over simulated networks are applied to State; every getter of every hop is compared with sums, min/max, two-pass variance and an explicit newest-first window; the conservation laws are asserted separately.',
          'jitter figures are recomputed by their defining recurrence; float tolerances 1e-9 / 1e-6 (stddev).', 'DESIGN.md 3/C05'),
